@@ -7,12 +7,12 @@ _fg = json.load(open(os.path.join(_c01, 'forms_gen.json')))
 _st = json.load(open(os.path.join(_c01, 'forms_status.json')))
 # "implemented" = accepted by the pinned release (vendored list checks/C01/forms_status.json); a form that stops being accepted
 # makes the both-accept witness unreachable, which the runner reports (vacuous harness = broken check, to be triaged).
-_sel = [h for h in _fg['harnesses'] if not h.get('known') and _st.get(h['fn'], {}).get('accepted_runs', 0) > 0]
+_sel = [h for h in _fg['harnesses'] if (not h.get('known') and _st.get(h['fn'], {}).get('accepted_runs', 0) > 0) or (h.get('known') == 'D15' and h['fn'] in ('h_f64_vpdpbssd_xmm_xmm_xmm_kf_D15', 'h_f64_vmpsadbw_xmm_xmm_xmm_imm_kf_D15'))]
 _NQ = max(1, len(_sel) // 10); _NT = max(1, len(_sel) // 160)
 HARNESSES = []
 for _i, _h in enumerate(_sel):
     HARNESSES.append(Harness('forms13', _h['fn'], unwind=17, tiers=('quick', 'thorough'), mem_gb=6, timeout=900, validate_runs=200,
-                             rotate=((_i * 31) % _NQ, _NQ), rotate_thorough=((_i * 7907) % _NT, _NT),
+                             rotate=None if _h.get('known') else ((_i * 31) % _NQ, _NQ), rotate_thorough=None if _h.get('known') else ((_i * 7907) % _NT, _NT), known=_h.get('known'),
                              bounds='instruction %s, %s-bit mode: same symbolic operand space as the C01 harness of the same name; strict validation on and off' % (_h['inst'], _h['mode'])))
 EXPLANATION = 'bounded symbolic execution of the real encoder twice (strict validation on / off) on the same symbolic operands'
 OUTSIDE = ['instruction-name round trip (inst_id_to_string / string_to_inst_id): the binary search over the name tables did not reach a verdict within budget (see DESIGN.md C13)',
